@@ -686,6 +686,54 @@ func c07Run(c core.Case) core.Result {
 		}
 		return core.Okay(true, out)
 	}
+	if c.Fam == "macrolocals" {
+		// a name first set inside a macro body is local to that call, whatever the macro's parameter list: N = arity 0..3, body 0..3, call site 0..2, via 0..2
+		ar, body, site, via := c.N[0], c.N[1], c.N[2], c.N[3]
+		params := []string{"pa", "pb", "pc"}[:ar]
+		args := []string{"'1'", "'2'", "'3'"}[:ar]
+		b, inside := "", "<in>"
+		switch body {
+		case 0:
+			b = "{% set tmp = 'in' %}<{{ tmp }}>"
+		case 1:
+			b = "{% set tmp %}in{% endset %}<{{ tmp }}>"
+		case 2:
+			b, inside = "{% for q in [1] %}{% set tmp = 'in' %}{% endfor %}<{{ probe('tmp') }}>", "<U>"
+		case 3:
+			b = "{% if true %}{% set tmp = 'in' %}{% endif %}<{{ tmp }}>"
+		}
+		head, call := "", "_self.m("
+		switch via {
+		case 1:
+			head, call = "{% import 'main.txt' as mm %}", "mm.m("
+		case 2:
+			head, call = "{% from 'main.txt' import m as mloc %}", "mloc("
+		}
+		call = "{{ " + call + strings.Join(args, ", ") + ") }}"
+		switch site {
+		case 1:
+			call = "{% for z in [1] %}" + call + "{% endfor %}"
+		case 2:
+			call = "{% if true %}" + call + call + "{% endif %}"
+			inside += inside
+		}
+		src := "{% macro m(" + strings.Join(params, ", ") + ") %}" + b + "{% endmacro %}" + head + call + "[{{ probe('tmp') }}{{ tmp }}]" +
+			"{% for i in [1, 2] %}{% set tmp = tmp ~ i %}{% endfor %}[{{ probe('tmp') }}{{ tmp }}]" + call + "[{{ probe('tmp') }}]"
+		want := inside + "[U][U]" + inside + "[U]"
+		for tw := 0; tw < 2; tw++ {
+			env := c07Env()
+			if tw == 1 {
+				env = twig.New(nil)
+				env.Functions["probe"] = c07Env().Functions["probe"]
+			}
+			env.Loader = &stick.MemoryLoader{Templates: map[string]string{"main.txt": src}}
+			out, err, pan := tryExec(env, "main.txt", nil)
+			if pan != "" || err != nil || out != want {
+				return core.Violation("scoping", fmt.Sprintf("%q (twig=%v) renders %q (%v %s), want %q", src, tw == 1, out, err, pan, want))
+			}
+		}
+		return core.Okay(true, want)
+	}
 	if c.Fam == "macrotwice" {
 		// a macro called repeatedly with equal arguments: its parameters are bound and its body is run for each call
 		// (a counting callback inside the body shows it), and the parameter is undefined again after each
@@ -866,6 +914,15 @@ func c07Levels(tier string) []core.Level {
 			}
 			for k := 0; k < 8; k++ {
 				emit(core.Case{Fam: "corner", N: []int{k}})
+			}
+			for ar := 0; ar <= 3; ar++ {
+				for body := 0; body < 4; body++ {
+					for site := 0; site < 3; site++ {
+						for via := 0; via < 3; via++ {
+							emit(core.Case{Fam: "macrolocals", N: []int{ar, body, site, via}})
+						}
+					}
+				}
 			}
 			// a context entry of the host named "loop": 5 templates x core / twig x Execute / ExecuteSafe
 			for form := 0; form < 5; form++ {
